@@ -32,7 +32,8 @@ RULE = ('conversion: base model (AUTOUGH2 for ->TOUGH2, TOUGH2 for ->AUTOUGH2) p
         'atomic deviations (k = 1 quick, 2 thorough), deviations = each section toggled, one more generator of each '
         'of the 36 types in 3 placements (new name / duplicate (block,name) after / before the original), every MOP '
         'position 1..24 x digit 0..9, MP, simulator family x EOS suffix, every SHORT subset x frequency, every '
-        'history representation (absent/objects/bare names)^3, 7 GOFT lists (block with three generators, block '
+        'LINEQ with a blank type, read-from-file origin with an extra-precision side file (all sections / echoed / '
+        'ROCKS only / ROCKS+ELEME+CONNE), history representation (absent/objects/bare names)^3, 7 GOFT lists (block with three generators, block '
         'requested twice, requested blocks without generator, every block), solver types, file names, read-from-file origin, '
         'type-setter route; in pairs a MOP deviation is taken only from the positions the converters treat '
         '(10,12,14,16,17,20,21,22,23,24), the other 14 positions are singles and crossed with MP; export: 27 rectangular '
@@ -508,7 +509,10 @@ def build(direction, atoms):
             dat.parameter['option'][a[1]] = a[2]
         elif kind == 'lineq':
             if dat.lineq:
-                dat.lineq['type'] = a[1]
+                if a[1] is None:
+                    dat.lineq.pop('type', None)
+                else:
+                    dat.lineq['type'] = a[1]
         elif kind == 'solver':
             if dat.solver:
                 dat.solver['type'] = a[1]
@@ -549,14 +553,26 @@ def build(direction, atoms):
             meta['route'] = a[1]
         elif kind == 'origin':
             meta['origin'] = a[1]
-    if meta['origin'] == 'file':
+    if meta['origin'] != 'mem':
         fn = dat.filename
         path = os.path.join(core.scratch(), 'c20o.dat')
+        for stale in (path, os.path.splitext(path)[0] + '.pdat'):
+            if os.path.exists(stale):
+                os.remove(stale)
         with quiet():
-            dat.write(path)
+            if meta['origin'] == 'file':
+                dat.write(path)
+            else:
+                # AUTOUGH2 extra-precision side file (.pdat), sections echoed in the main file or not
+                xp, echo = XP_ORIGINS[meta['origin']]
+                dat.write(path, extra_precision=xp, echo_extra_precision=echo)
             dat = t2data(path)
         dat.filename = fn
     return dat, meta
+
+
+XP_ORIGINS = {'file-xp': (True, False), 'file-xp-echo': (True, True), 'file-xp-rocks': (['ROCKS'], False),
+              'file-xp-mesh': (['ROCKS', 'ELEME', 'CONNE'], False)}
 
 
 def compatible(direction, atoms):
@@ -602,8 +618,10 @@ def atoms_for(direction):
             if not (d == 0 and pos != 16) and not (pos == 16 and d == 5):
                 out.append(('mop', pos, d))
     if direction == 'A2T':
-        for t in (0, 1, 3):
+        for t in (None, 0, 1, 3):      # None: LINEQ record with a blank type (the reader stores no 'type')
             out.append(('lineq', t))
+        for o in sorted(XP_ORIGINS):
+            out.append(('origin', o))
         for pre in cm.SIM_PREFIXES:
             for e in EOS_SUFFIXES:
                 if (pre, e) != ('AUTOUGH2.2', 'EW'):
@@ -834,15 +852,23 @@ def clauses_A2T(pre, post, meta, V):
                 break
     # ---- history requests
     sh = pre['short']
+    # FOFT/COFT/GOFT lists an AUTOUGH2 model happens to hold are TOUGH2-only data (history_block documentation):
+    # they are no requests of the AUTOUGH2 model, and whether they are replaced by or merged with the SHORT items
+    # is not fixed by the statement
     for part, hist in (('block', 'hist_block'), ('connection', 'hist_conn')):
         got = tuple(n for k, n in post[hist])
-        want = tuple(sh[part]) if part in sh else tuple(n for k, n in pre[hist])
-        if got != want:
-            V('history-requests-changed', part, 'history %s requests %r, SHORT/history before %r' % (part, got, want))
+        old = [n for k, n in pre[hist]]
+        if part in sh:
+            ok = cm.is_subsequence(list(sh[part]), got) and cm.multiset_leq(got, list(sh[part]) + old)
+        else:
+            ok = got == tuple(old)
+        if not ok:
+            V('history-requests-changed', part, 'history %s requests %r, SHORT items before %r, history before %r'
+              % (part, got, sh.get(part), old))
     got = tuple(n for k, n in post['hist_gen'])
     if 'generator' in sh:
         required = [b for b, n, t, i in sh['generator'] if cm.gen_class(t) != 'autough2-only']
-        allowed = [b for b, n, t, i in sh['generator']]
+        allowed = [b for b, n, t, i in sh['generator']] + [n for k, n in pre['hist_gen']]
         if not (cm.is_subsequence(required, got) and cm.multiset_leq(got, allowed)):
             V('history-requests-changed', 'generator',
               'history generator requests (blocks) %r, SHORT generators before %r' % (got, sh['generator']))
@@ -1021,10 +1047,14 @@ def conv_case(direction, atoms, keep=None):
     dat, meta = build(direction, atoms)
     site = site_name(direction, meta)
 
+    osfx = '|origin=extra-precision-files' if meta['origin'] in XP_ORIGINS else ''
+
     def V(clause, cls, what):
-        sig = 'C20|%s|%s|%s' % (site, clause, cls)
+        sig = 'C20|%s|%s|%s%s' % (site, clause, cls, osfx)
         if sig not in [s for s, w in out]:
-            out.append((sig, what + (' [via the type setter]' if meta['route'] == 'setter' else '')))
+            out.append((sig, what + (' [via the type setter]' if meta['route'] == 'setter' else '')
+                        + (' [model read from files written with extra_precision=%r, echo_extra_precision=%r]'
+                           % XP_ORIGINS[meta['origin']] if osfx else '')))
     pre = canon(dat)
     memo = {}
 
@@ -1091,6 +1121,10 @@ def conv_case(direction, atoms, keep=None):
             counters['rt_field_skipped_%s' % f] = counters.get('rt_field_skipped_%s' % f, 0) + 1
             continue
         ncmp += 1
+        if osfx and f in ('rocks', 'blocks', 'connections', 'rpcap', 'gens', 'lookupkeys'):
+            V('roundtrip', 'extra-precision-sections', 'converted model does not survive write -> read in %s (a section '
+              'that came from the extra-precision file): written from %s, read back %s' % (f, brief(v0[f]), brief(v1[f])))
+            continue
         V('roundtrip', f, 'converted model does not survive write -> read in %s: written from %s, read back %s'
           % (f, brief(v0[f]), brief(v1[f])))
     counters['rt_fields_compared'] = ncmp
